@@ -41,8 +41,8 @@ static uint32_t draw_cp(simrt::Rng &r, unsigned mix) {
 void *pool_build(uint64_t seed) {
     Pool *p = new Pool();
     simrt::Rng r; r.seed(simrt::mix(seed, 0xB00, 1));
-    static const unsigned SZ[] = {0, 3, 15, 16, 17, 40, 100, 600, 12, 11, 0, 3, 15, 16, 260, 300, 700, 1500};      // a third of the pool is long: some paths only run for long text
-    for (unsigned i = 0; i < 18; i++) {
+    static const unsigned SZ[] = {0, 3, 15, 16, 17, 40, 100, 600, 12, 11, 0, 3, 15, 16, 260, 300, 700, 1500, 5000};      // a third of the pool is long: some paths only run for long text
+    for (unsigned i = 0; i < 19; i++) {
         unsigned n = SZ[i], mix = i % 3;
         std::u32string sc;
         for (unsigned k = 0; k < n; k++) sc += (char32_t)draw_cp(r, mix);
@@ -52,7 +52,9 @@ void *pool_build(uint64_t seed) {
         p->hex.push_back(ST::hex_encode(s.c_str(), s.size()));
         p->b64.push_back(ST::base64_encode(s.c_str(), s.size()));
     }
-    static const char *const NUMS[] = {"0", "42", "-17", "0x1F", "3.14159", "1e10", "true", "FALSE", "  12abc", "9223372036854775807", "-0.5e-3", "077"};
+    static const char *const NUMS[] = {"0", "42", "-17", "0x1F", "3.14159", "1e10", "true", "FALSE", "  12abc", "9223372036854775807", "-0.5e-3", "077",
+                                        "-9223372036854775808", "18446744073709551615", "1.7976931348623157e308", "4.9e-324", "zz", "-ZZ", "1010101010101010101010101010101", "+0", "0.000000000000000000001",
+                                        "123456789012345678901234567890", "inf", "nan", "0b101", "1_000", "\t 7", "7 ", ""};
     for (const char *n : NUMS) p->nums.push_back(ST::string::from_validated(n, std::strlen(n)));
     p->strs.push_back(ST::string::from_validated("the quick brown fox jumps over the lazy dog, the end", 52));
     p->strs.push_back(ST::string::from_validated("a,b,,c;d e\tf", 12));
@@ -108,7 +110,8 @@ uint64_t do_op(const void *pool_, void *priv_, const BOp &op) {
         case 15: hb(h, s.to_latin_1()); break;
         case 16: { ST::char_buffer b = s.to_utf8(); hb(h, b); ST::char_buffer c2; s.to_buffer(c2); hb(h, c2); break; }
         case 17: { std::string a = s.to_std_string(); h.bytes(a.data(), a.size()); std::u16string b = s.to_std_u16string(); h.bytes(b.data(), b.size() * 2); std::wstring w = s.to_std_wstring(); h.u64(w.size()); std::u32string u = s.to_std_u32string(); h.bytes(u.data(), u.size() * 4); break; }
-        case 18: { const ST::string &n = P.nums[op.a % P.nums.size()]; ST::conversion_result r; h.u64((uint64_t)n.to_int()); h.u64((uint64_t)n.to_long_long(r, 0)); h.u8(r.ok()); h.u8(r.full_match()); h.u64((uint64_t)n.to_uint(16)); double d = n.to_double(r); h.bytes(&d, sizeof d); h.u8(n.to_bool()); float f = n.to_float(); h.bytes(&f, sizeof f); break; }
+        case 18: { const ST::string &n = P.nums[op.a % P.nums.size()]; ST::conversion_result r;
+                   { int base = (op.c % 5 == 0) ? 0 : 2 + (int)(op.c % 35); h.u64((uint64_t)n.to_long_long(r, base)); h.u8(r.ok()); h.u64(n.to_ulong_long(r, base)); h.u8(r.full_match()); h.u64((uint64_t)n.to_int(base)); } h.u64((uint64_t)n.to_int()); h.u64((uint64_t)n.to_long_long(r, 0)); h.u8(r.ok()); h.u8(r.full_match()); h.u64((uint64_t)n.to_uint(16)); double d = n.to_double(r); h.bytes(&d, sizeof d); h.u8(n.to_bool()); float f = n.to_float(); h.bytes(&f, sizeof f); break; }
         case 19: { hs(h, s + t); hs(h, s + "lit"); hs(h, "lit" + t); hs(h, s + L"wé"); hs(h, u"€" + t); hs(h, s + U"\U0001F600"); break; }
         case 20: { hs(h, s + 'c'); hs(h, s + char32_t(0x20AC)); hs(h, char16_t(0xE9) + t); hs(h, L'w' + t); break; }
         case 21: { long long v = (long long)op.c * 7919 - 100000;
@@ -119,12 +122,23 @@ uint64_t do_op(const void *pool_, void *priv_, const BOp &op) {
                        switch (op.c % 4) { case 0: hs(h, ST::format(f.c_str(), sv)); break; case 1: hs(h, ST::format(f.c_str(), (int)sv)); break; case 2: hs(h, ST::format(f.c_str(), (short)sv)); break; default: hs(h, ST::format(f.c_str(), (long)sv)); break; }
                    } hs(h, ST::format("{} {x} {#X} {>12} {<8_*}| {+} {o} {b}", v, (unsigned)op.c, op.c, (short)op.b, (int)op.a, -(int)op.c % 9999, (unsigned char)op.c, (unsigned short)(op.c & 0xFF))); hs(h, ST::string::from_int((int)v, 10 + op.c % 27)); break; }
         case 22: { double d = (double)(op.c % 100000) / 7.0 - 3000.0; unsigned prec = op.c % 9;
+                   {   // composed: every precision 0..17, each of f / e / g / E, with and without width, sign flag and zero padding
+                       static const char *const FC[] = {"f", "e", "g", "E", ""}; static const double VALS[] = {0.0, -0.0, 1.5, -2.25, 1e-7, 123456789.125, 1e15, -1e-300, 9.999999999, 0.1};
+                       std::string f = std::string("{") + ((op.c >> 4) & 1 ? "+" : "") + ((op.c >> 5) & 1 ? "0" : "") + ((op.c >> 6) % 3 == 0 ? std::to_string(1 + (op.c >> 8) % 40) : "") + "." + std::to_string((op.c >> 14) % 18) + FC[(op.c >> 19) % 5] + "}";
+                       double v = VALS[op.a % 10] * (1 + op.b % 3);
+                       if ((op.a & 16) == 0) hs(h, ST::format(f.c_str(), v)); else hs(h, ST::format(f.c_str(), (float)v));
+                   }
                    switch (prec) {       // different threads use different precisions
                    case 0: hs(h, ST::format("v={}", d)); break; case 1: hs(h, ST::format("v={.1f}", d)); break; case 2: hs(h, ST::format("v={.2e}", d)); break; case 3: hs(h, ST::format("v={.3}", d)); break;
                    case 4: hs(h, ST::format("v={.4f};", d)); break; case 5: hs(h, ST::format("v={.5E}", d)); break; case 6: hs(h, ST::format("v={.6f} {>14.2f}", d, -d)); break; case 7: hs(h, ST::format("{+.7f}", d)); break;
                    default: hs(h, ST::format("{.8}", (float)d)); break; }
                    hs(h, ST::string::from_double(d)); break; }
-        case 23: { hs(h, ST::format("[{}] [{>30}] [{<5}] {&1} {}", s, t, s.c_str(), L"wide é", std::string("std"))); hs(h, ST::format("{} {} {}", u"u16 €", U"u32 \U0001F600", s.view())); break; }
+        case 23: { {   // composed: alignment, pad character, width up to 300, precision (cut) 0..40 or none
+                       static const char PADS[] = {' ', '*', '0', '-', '#', '.'};
+                       std::string f = std::string("[{") + ((op.c & 1) ? "<" : ">") + "_" + PADS[(op.c >> 1) % 6] + std::to_string((op.c >> 4) % 5 == 0 ? 300 - (op.c >> 7) % 60 : (op.c >> 7) % 48) + "}]";
+                       hs(h, ST::format(f.c_str(), s)); hs(h, ST::format(f.c_str(), t.c_str())); hs(h, ST::format(f.c_str(), (op.c >> 13) & 1 ? L"wide \u00e9\u20ac" : L""));
+                   }
+                   hs(h, ST::format("[{}] [{>30}] [{<5}] {&1} {}", s, t, s.c_str(), L"wide é", std::string("std"))); hs(h, ST::format("{} {} {}", u"u16 €", U"u32 \U0001F600", s.view())); break; }
         case 24: { hs(h, ST::format_latin_1("{}|{>8}|", "latin", op.c)); break; }
         case 25: hs(h, ST::hex_encode(s.c_str(), s.size())); break;
         case 26: hs(h, ST::base64_encode(s.c_str(), s.size())); break;
